@@ -117,6 +117,7 @@ def inrun_summary(prop, results):
             if v["prop"] == prop:
                 viol.setdefault(v["signature"], []).append((r, v))
     out_viol = []
+    min_deadline = time.time() + 150  # total minimisation budget of this batch
     for sig, lst in sorted(viol.items()):
         r, v = lst[0]
         sc = r.get("scenario")
@@ -124,8 +125,10 @@ def inrun_summary(prop, results):
         known = core.match_open_finding(core.load_known_findings(), prop, sig) is not None
         if sc is not None and known:
             path = core.write_replay(prop, sc.get("seed"), sig, {"kind": "run-level", "scenario": sc, "expect": {"signature": sig, "round": v.get("round"), "phase": v.get("phase"), "digest": r["digest"]}, "detail": v.get("detail"), "minimisation": {"minimised": False, "reason": "matches an open known finding"}})
+        elif sc is not None and time.time() > min_deadline:
+            path = core.write_replay(prop, sc.get("seed"), sig, {"kind": "run-level", "scenario": sc, "expect": {"signature": sig, "round": v.get("round"), "phase": v.get("phase"), "digest": r["digest"]}, "detail": v.get("detail"), "minimisation": {"minimised": False, "reason": "minimisation budget exhausted by earlier signatures"}})
         elif sc is not None:
-            msc, got, info = runlevel.minimise(sc, sig, budget_s=60)
+            msc, got, info = runlevel.minimise(sc, sig, budget_s=min(60, max(5.0, min_deadline - time.time())))
             if got is not None:
                 path = runlevel.make_replay(prop, msc, sig, info, got[0], got[1])
             else:
